@@ -89,8 +89,8 @@ contract(Contract(
             "line_wrapper": "opt[ref:LineWrapper]", "list_spacing": "enum:ListSpacing"},
     calls=CALLS,
     ensures={
-        # (C05 / C11: the wrappers are built from exactly the requested width, Markdown mode and the default minimum line length)
-        "pipeline": Clause(expected_result, props=["C15", "C07", "C04", "C08", "C09", "C10", "C02", "C05", "C11"]),
+        # (C12: a frontmatter-only document comes back newline-terminated; C05 / C11: the wrappers are built from exactly the requested width, Markdown mode and the default minimum line length)
+        "pipeline": Clause(expected_result, props=["C15", "C07", "C04", "C08", "C09", "C10", "C02", "C05", "C11", "C12"]),
         "fresh_objects": Clause(fresh_objects, props=["C13"]),
     },
     canaries=[
